@@ -78,7 +78,37 @@ Qed.
 
 (** after a restart the validater hands out the new password only *)
 Theorem restart_validater_current s draws uname k : validater (restart s draws) uname = Some k -> k = l_pwd (restart s draws).
-Proof. unfold validater. destruct (prefix _ uname); [intros H; injection H as <-; reflexivity|discriminate]. Qed.
+Proof. unfold validater. destruct (_ && prefix _ uname); [intros H; injection H as <-; reflexivity|discriminate]. Qed.
+
+(** a USERNAME that starts with a ufrag of the same length other than the current one is not validated: checks addressed to the
+    pre-restart credentials get no password (unless the RNG reproduced the ufrag, see restart_creds_fresh) *)
+Lemma prefix_same_length u u0 rest : length u = length u0 -> prefix u (u0 ++ rest) = true -> u = u0.
+Proof.
+  revert u0. induction u as [|a u IH]; intros [|b u0] HL HP; cbn in *; try discriminate; [reflexivity|].
+  apply andb_prop in HP. destruct HP as [Hab HP]. apply Z.eqb_eq in Hab. subst b. f_equal. apply IH; [lia|exact HP].
+Qed.
+
+Theorem restart_rejects_other_ufrag s draws u0 rest : enough draws ->
+  length u0 = DEF_UFRAG_LEN -> u0 <> l_ufrag (restart s draws) ->
+  validater (restart s draws) (u0 ++ rest) = None.
+Proof.
+  intros He HL HN. unfold validater.
+  destruct (prefix (l_ufrag (restart s draws)) (u0 ++ rest)) eqn:HP; [|rewrite andb_false_r; reflexivity].
+  exfalso. apply HN. symmetry. apply (prefix_same_length _ _ rest); [|exact HP].
+  cbn [restart l_ufrag]. rewrite gen_print_length, take_length; [symmetry; exact HL|]. unfold enough in He. lia.
+Qed.
+
+(** ... and the current ufrag is always accepted (the credentials of a restart are never empty) *)
+Theorem restart_accepts_current_ufrag s draws rest : enough draws ->
+  validater (restart s draws) (l_ufrag (restart s draws) ++ rest) = Some (l_pwd (restart s draws)).
+Proof.
+  intros He. unfold validater.
+  assert (HP : forall u r, prefix u (u ++ r) = true) by (induction u as [|a u IH]; intros r; cbn; [reflexivity|rewrite Z.eqb_refl; apply IH]).
+  rewrite HP, andb_true_r.
+  assert (HL : length (l_ufrag (restart s draws)) = DEF_UFRAG_LEN).
+  { cbn [restart l_ufrag]. rewrite gen_print_length, take_length; [reflexivity|]. unfold enough in He. lia. }
+  rewrite HL. reflexivity.
+Qed.
 
 Example restart_nonvacuous :
   let d := [0; 1; 2; 63; 26; 27; 52; 53; 62; 5; 5; 5; 5; 5; 5; 5; 5; 5; 5; 5; 5; 5; 5; 5; 5; 5]%nat in
